@@ -32,6 +32,7 @@ func init() {
 	ops["poison"] = opPoison
 	ops["stage"] = opStage
 	ops["allocpkt"] = opAllocPkt
+	ops["failat"] = opFailAt
 	ops["par"] = opPar
 }
 
@@ -134,6 +135,8 @@ type captureFormat struct {
 	// producer still holds them when the next datagram is formatted) with copies taken when they were produced
 	prev     []*formed
 	prevSnap [][4][]byte
+	// failat: Format refuses its failAt-th call of the current datagram (1-based; 0: never)
+	failAt, nfmt int
 }
 
 // stale: how many byte slices handed out for the previous datagram have changed since
@@ -184,6 +187,12 @@ func (c *captureFormat) Format(data interface{}) ([]byte, []byte, error) {
 	if c.countOnly {
 		c.count++
 		return nil, nil, nil
+	}
+	if c.failAt > 0 {
+		c.nfmt++
+		if c.nfmt == c.failAt {
+			return nil, nil, errors.New("format refused (failat)")
+		}
 	}
 	var line string
 	m, ok := data.(*protoproducer.ProtoProducerMessage)
@@ -372,6 +381,8 @@ func opPkt(st *state, args []string) []string {
 	}
 	pe.cap.lines = nil
 	pe.cap.held = nil
+	pe.cap.nfmt = 0
+	defer func() { pe.cap.failAt = 0 }()
 	msg := &utils.Message{
 		Src:      netip.AddrPortFrom(addr, uint16(port)),
 		Dst:      netip.AddrPortFrom(netip.MustParseAddr("127.0.0.1"), 2055),
@@ -550,4 +561,18 @@ func opAllocPkt(st *state, args []string) []string {
 	}
 	fmt.Fprintf(os.Stderr, "alloc: len=%d widest=%d alloc=%d budget=%d\n", len(d), widest, alloc, budget)
 	return []string{fmt.Sprintf("%s n=%d budget=%s", classify(err), pe.cap.count, verdict), fmt.Sprintf("alloc %d %d", alloc, len(d))}
+}
+
+// failat <pid> <k>: the format of the pipe refuses the k-th message of the next datagram (`pkt`)
+func opFailAt(st *state, args []string) []string {
+	if len(args) != 2 {
+		return []string{"bad-op"}
+	}
+	pe, ok := st.extra["pipe:"+args[0]].(*pipeEntry)
+	k, err := strconv.Atoi(args[1])
+	if !ok || err != nil {
+		return []string{"bad-op"}
+	}
+	pe.cap.failAt = k
+	return []string{"res ok"}
 }
